@@ -23,11 +23,11 @@ func init() {
 		Run:        runC17,
 	})
 	register(&Def{
-		ID: "C18",
+		ID:          "C18",
 		Explanation: "Structural argument for fsstore write atomicity, decided from the shape of the code: (1) destination paths are only ever created by os.Rename from a staging file; write-mode opens happen only on staging paths with O_CREATE|O_EXCL; Remove only touches staging files; Mkdir only destination directories or the staging directory; no other mutating os function is used; (2) in the commit closure Close of the staging file dominates the rename and the rename is unreachable when Close failed; (3) the io.Writer handed to the caller is that staging file; (4) Put aborts (commit with the empty key) on a write error and the abort branch removes the staging file and cannot reach the rename. With POSIX rename atomicity (trusted) a key is absent or complete at every instant. No crash point or schedule is executed.",
-		NotCovered: []string{"durability across power loss (no fsync; outside the property, which speaks of process death)", "the EEXIST race in haveDir (a spurious error, not a partial block)", "actual crash/interleaving exploration"},
-		Trusted:    []string{"go/ssa, go/types", "rename(2) is atomic; O_EXCL creation is exclusive", "crypto/rand staging names do not collide with keys (they live in a directory no key maps to)"},
-		Run:        runC18,
+		NotCovered:  []string{"durability across power loss (no fsync; outside the property, which speaks of process death)", "the EEXIST race in haveDir (a spurious error, not a partial block)", "actual crash/interleaving exploration"},
+		Trusted:     []string{"go/ssa, go/types", "rename(2) is atomic; O_EXCL creation is exclusive", "crypto/rand staging names do not collide with keys (they live in a directory no key maps to)"},
+		Run:         runC18,
 	})
 }
 
@@ -53,13 +53,13 @@ func (c pathClass) String() string {
 }
 
 type fsFacts struct {
-	p        *core.Program
-	fns      []*ssa.Function
-	inPkg    map[*ssa.Function]bool
+	p         *core.Program
+	fns       []*ssa.Function
+	inPkg     map[*ssa.Function]bool
 	keyToPath map[*ssa.Function]bool // functions whose result is Join(base + shards of escaped key)
-	memo     map[ssa.Value]pathClass
-	busy     map[ssa.Value]bool
-	staging  string // constant value of the staging directory name
+	memo      map[ssa.Value]pathClass
+	busy      map[ssa.Value]bool
+	staging   string // constant value of the staging directory name
 }
 
 func gatherFS(p *core.Program) *fsFacts {
@@ -781,7 +781,9 @@ func runC18(c *core.Ctx) {
 				for _, mv := range moves {
 					var nilEdges map[core.Edge]bool = map[core.Edge]bool{}
 					for _, cz := range closes {
-						for e := range core.EdgesWhere(cl, func(r core.Rel) bool { return r.Op == token.EQL && core.Strip(r.X) == ssa.Value(cz) && core.IsNilConst(r.Y) }) {
+						for e := range core.EdgesWhere(cl, func(r core.Rel) bool {
+							return r.Op == token.EQL && core.Strip(r.X) == ssa.Value(cz) && core.IsNilConst(r.Y)
+						}) {
 							nilEdges[e] = true
 						}
 					}
